@@ -349,9 +349,5 @@ class Evaluator:
 
 
 def _as_load(t):
-    import copy
-    t2 = copy.deepcopy(t)
-    for n in ast.walk(t2):
-        if hasattr(n, "ctx"):
-            n.ctx = ast.Load()
-    return t2
+    # re-parse instead of deep-copying: analysed nodes carry _parent links to the whole module
+    return ast.parse(ast.unparse(t), mode="eval").body
